@@ -318,7 +318,11 @@ func (client *client) writeLoop() {
 			switch p := packet.(type) {
 			case *packets.Publish:
 				if client.version == packets.Version5 {
-					if client.opts.ClientTopicAliasMax > 0 {
+					// The queue has checked the size of the plain packet against the client's Maximum Packet Size. The
+					// Topic Alias property adds up to 5 bytes (3, plus a longer Property Length and Remaining Length):
+					// use an alias only if the packet still fits.
+					if client.opts.ClientTopicAliasMax > 0 &&
+						uint64(gmqtt.MessageFromPublish(p).TotalBytes(packets.Version5))+5 <= uint64(client.opts.ClientMaxPacketSize) {
 						// use alias if exist
 						if alias, ok := client.topicAliasManager.Check(p); ok {
 							p.TopicName = []byte{}
